@@ -1417,6 +1417,15 @@ func (a *Agent) addRelayCandidates(ctx context.Context, ep relayEndpoint) {
 
 	addresses, ok := a.resolveRelayAddresses(ep)
 	if !ok {
+		if ep.closeConn != nil {
+			ep.closeConn()
+		}
+		if ep.onClose != nil {
+			if err := ep.onClose(); err != nil {
+				a.log.Warnf("Failed to release relay endpoint: %v", err)
+			}
+		}
+
 		return
 	}
 
